@@ -20,18 +20,14 @@ import random
 from types import SimpleNamespace
 
 from . import gen
-from .kernel import EventLog, Violation, result_ok, result_violation
+from .kernel import EventLog, Violation, result_ok, result_violation, vclasses
 
 RECT_FAMILY = ("NEARSQUARE", "RECTANGLE", "BIRECTANGLE", "BIZONEDRECTANGLE")
 BISECTION_BASED = ("NEARSQUARE", "RECTANGLE", "BIRECTANGLE", "BIZONEDRECTANGLE", "BIRECTANGLECONSTRAINED")
 
 
 # ------------------------------------------------------------------------------------------ plan generation
-def _rows_ok(side: float, b_min: float, b_max: float) -> bool:
-    """some integer row count n >= 3 has b_min <= side/(n-1) <= b_max (else the generators yield empty lists)"""
-    n_lo = math.ceil(side / b_max + 1)
-    n_hi = math.floor(side / b_min + 1)
-    return n_lo <= n_hi and n_lo >= 3
+_rows_ok = gen.rows_ok
 
 
 def draw_geometry(rng: random.Random, method: str) -> dict:
@@ -639,7 +635,7 @@ def minimise(plan: dict, vclass: str, budget: int):
                 r = run_plan(q)
             except Exception:  # noqa: BLE001
                 continue
-            if r["status"] == "violation" and r["violation"]["vclass"] == vclass:
+            if vclass in vclasses(r):
                 cur = q
                 steps += 1
                 improved = True
